@@ -248,7 +248,15 @@ def build(cfg, autos=None):
             if name not in p:
                 raise KeyError(f'{cfg["game"]}.create_state needs {name}')
             args.append(p[name])
-    return cls.create_state(*args, **kwargs)
+    st = cls.create_state(*args, **kwargs)
+    if cfg.get('deck_override'):
+        kw = dict(mode=st.mode, starting_board_count=st.starting_board_count,
+                  divmod=st.divmod, rake=st.rake)
+        st = S.State(st.automations, deck_of(cfg['deck_override']), st.hand_types, st.streets,
+                     st.betting_structure, st.ante_trimming_status, st.antes,
+                     st.blinds_or_straddles, st.bring_in, st.starting_stacks,
+                     st.player_count, **kw)
+    return st
 
 
 def describe(cfg):
